@@ -438,6 +438,51 @@ macro_rules! byte_type {
     };
 }
 
+/// Plain value WITHOUT a destructor (`needs_drop::<T>() == false`) whose `Clone` can still fail:
+/// the configuration in which generic code may take "trivially droppable" shortcuts. Its drops
+/// cannot be observed, so it is excluded from the drop ledger; its value and integrity tag are
+/// checked like everyone else's.
+macro_rules! nodrop_type {
+    ($name:ident, $ix:expr) => {
+        #[repr(C)]
+        pub struct $name {
+            val: u64,
+            tag: u64,
+        }
+        impl $name {
+            fn make_with(val: u64, _origin: Origin) -> Self {
+                $name { val, tag: tag_for($ix, 0, val) }
+            }
+        }
+        impl Tracked for $name {
+            const IX: u8 = $ix;
+            const NAME: &'static str = stringify!($name);
+            const HAS_SERIAL: bool = false;
+            fn make(val: u64) -> Self {
+                Self::make_with(val, Origin::New)
+            }
+            fn serial(&self) -> u64 {
+                0
+            }
+            fn val(&self) -> u64 {
+                self.val
+            }
+            fn set_val(&mut self, val: u64) {
+                self.val = val;
+                self.tag = tag_for($ix, 0, val);
+            }
+            fn integrity(&self) -> Result<(), String> {
+                if self.tag != tag_for($ix, 0, self.val) {
+                    return Err(format!("corrupt {} value: val={:#x} tag={:#x}", stringify!($name), self.val, self.tag));
+                }
+                Ok(())
+            }
+        }
+        common_impls!($name);
+        serde_u64!($name);
+    };
+}
+
 // Components of registry R7 (and R10).
 inline_type!(A, 0, 8);
 zst_type!(Z, 1);
@@ -447,7 +492,7 @@ byte_type!(S, 4);
 vec_type!(V, 5);
 inline_type!(W, 6, 16);
 // Extra components of R10.
-inline_type!(X, 7, 8);
+nodrop_type!(X, 7);
 boxed_type!(Y, 8);
 zst_type!(T, 9);
 
@@ -458,7 +503,9 @@ zst_type!(P2, 18);
 boxed_type!(P3, 19);
 
 pub const COMPONENT_NAMES: [&str; 10] = ["A", "Z", "H", "O", "S", "V", "W", "X", "Y", "T"];
-pub const HAS_SERIAL: [bool; 10] = [true, false, true, true, false, true, true, true, true, false];
+pub const HAS_SERIAL: [bool; 10] = [true, false, true, true, false, true, true, false, true, false];
+/// Whether drops of the type are observable (it has a destructor that reports to the ledger).
+pub const TRACKS_DROPS: [bool; 10] = [true, true, true, true, true, true, true, false, true, true];
 pub const RESOURCE_NAMES: [&str; 4] = ["P0", "P1", "P2", "P3"];
 pub const RES_HAS_SERIAL: [bool; 4] = [true, true, false, true];
 pub const RES_IX_BASE: u8 = 16;
